@@ -21,7 +21,7 @@ from fractions import Fraction
 import z3
 
 from gvc import sym as S
-from gvc.sym import Sym, SymBool, band, bnot, bor, TRUE, FALSE, _split_ri, _has_i
+from gvc.sym import Sym, SymBool, band, bnot, bor, TRUE, FALSE, _split_ri, _has_i, _red
 from gvc.explore import _eval_known
 
 
@@ -208,9 +208,51 @@ def cvc5_check(smt2_text, timeout_s):
             pass
 
 
+def _ideal_step(ring, hyps, goal, meta, budget):
+    """ID back end: an equality goal whose polynomial lies in the ideal generated by the equalities among the hypotheses
+    (and the defining relations of the leaf generators) holds.  Exact: span first, then a Groebner basis (time-limited)."""
+    if goal.op != "eq":
+        return None
+    eqs = []
+    for h in hyps:
+        if h.op == "eq":
+            eqs.append(h.args[0].n)
+        elif h.op == "and":
+            eqs += [a.args[0].n for a in h.args if a.op == "eq"]
+    used = _gens_of(list(hyps) + [goal])
+    req, _ = _relation_polys(ring, meta, used)
+    eqs += req
+    if not eqs:
+        return None
+    target = goal.args[0].n
+    if _in_span(target, eqs):
+        return "id-span"
+    # span with multipliers of degree 1: target == sum_i (c_i + sum_v c_iv * v) * e_i, v ranging over the generators of the target
+    tv = set()
+    for m in target:
+        for k, e in enumerate(m):
+            if e and k:
+                tv.add(k)
+    if len(tv) * len(eqs) <= 600:
+        ext = list(eqs)
+        for k in sorted(tv):
+            g = ring.gens[k]
+            ext += [_red(e * g) for e in eqs]
+        if _in_span(target, ext):
+            return "id-span-deg1"
+    r = _groebner_member(target, eqs, ring, budget)
+    return "id-groebner" if r else None
+
+
 def prove_real(ring, hyps, goal, meta, facts, timeout_s=30.0, seed=0):
     t0 = time.time()
     allh = list(hyps) + list(facts)
+    try:
+        b = _ideal_step(ring, allh, goal, meta, min(30.0, timeout_s / 3))
+        if b:
+            return Verdict("proved", b, time.time() - t0)
+    except S.EngineGap:
+        pass
     neg = bnot(goal)
     try:
         r, model, exact, solver = z3_check(ring, meta, allh + [neg], timeout_s * 1000, want_model=True, seed=seed)
